@@ -107,6 +107,14 @@ let run_t () =
         | (_, FOob) -> "OOB"
         | (_, FPtr _) -> "?" in
     Buffer.add_string b (" fix=" ^ fx (-1) ^ "," ^ fx 0 ^ "," ^ fx 1);
+    (* the same stream read INTO existing destinations: holding the values themselves, the values in
+       reverse order (other sizes / other types), nested vectors doubled, nothing; twice in a row *)
+    let rec dbl v = match v with VVec l -> VVec (List.map dbl l @ List.map dbl l) | VStr s -> VStr (s @ s) | v -> v in
+    let into olds = match get_into_seq shs olds (reader_of enc) with
+      | ROk (vs', r') -> vs' = vs && rd_end r'
+      | _ -> false in
+    let ok = List.for_all into [vs; List.rev vs; List.map dbl vs; []] in
+    Buffer.add_string b (" re=" ^ (if ok then "ok" else "model-depends-on-destination"));
     Buffer.contents b
 
 let run_r () =
